@@ -1,4 +1,402 @@
-use crate::world::World;
-use crate::Cx;
+//! Family 5: CoreDocument / IotaDocument / Service / VerificationMethod JSON and StateMetadataDocument::unpack.
+use crate::gen::{self, Kind, DID_TOKENS};
+use crate::world::{sign_compact, SigMod, World, ISSUER_DID};
+use crate::{Cx, In};
+use identity_core::convert::{FromJson, ToJson};
+use identity_credential::credential::{LinkedDomainService, LinkedVerifiablePresentationService};
+use identity_credential::revocation::{RevocationBitmap, RevocationDocumentExt};
+use identity_did::{CoreDID, DIDUrl, DID};
+use identity_document::document::CoreDocument;
+use identity_document::service::{Service, ServiceEndpoint};
+use identity_document::utils::DIDUrlQuery;
+use identity_document::verifiable::JwsVerificationOptions;
+use identity_ecdsa_verifier::EcDSAJwsVerifier;
+use identity_eddsa_verifier::EdDSAJwsVerifier;
+use identity_iota_core::{IotaDID, IotaDocument, IotaDocumentMetadata, StateMetadataDocument, StateMetadataEncoding};
+use identity_storage::key_id_storage::MethodDigest;
+use identity_verification::{MethodData, MethodRef, MethodRelationship, MethodScope, VerificationMethod};
 use vh::Rng;
-pub fn run(_cx: &mut Cx, _w: &World, _rng: &mut Rng, _budget: u64) {}
+
+const SCOPES: &[Option<MethodScope>] = &[
+  None,
+  Some(MethodScope::VerificationMethod),
+  Some(MethodScope::VerificationRelationship(MethodRelationship::Authentication)),
+  Some(MethodScope::VerificationRelationship(MethodRelationship::AssertionMethod)),
+  Some(MethodScope::VerificationRelationship(MethodRelationship::KeyAgreement)),
+  Some(MethodScope::VerificationRelationship(MethodRelationship::CapabilityDelegation)),
+  Some(MethodScope::VerificationRelationship(MethodRelationship::CapabilityInvocation)),
+];
+const RELS: &[MethodRelationship] =
+  &[MethodRelationship::Authentication, MethodRelationship::AssertionMethod, MethodRelationship::KeyAgreement, MethodRelationship::CapabilityDelegation, MethodRelationship::CapabilityInvocation];
+const QUERIES: &[&str] = &["#ed", "ed", "#key-1", "", "#", "did:example:123#ed", "did:", "did:é#é", "é", "#é#", "?a#b", "/p#f", "did:example:123", "a#b#c", "#rev", "#my-service", " #ed", "#ed "];
+
+pub fn sweep_method(cx: &mut Cx, origin: &str, m: &VerificationMethod) {
+  let i = In::C(origin, "VerificationMethod");
+  cx.acc("VerificationMethod.getters", i, || (m.id().to_string().len(), m.controller().as_str().len(), m.type_().to_string().len(), m.properties().len(), format!("{:?}", m.data()).len()));
+  cx.acc("MethodData.try_decode", i, || m.data().try_decode().map(|v| v.len()).ok());
+  cx.acc("MethodData.public_key_jwk", i, || (m.data().public_key_jwk().map(|k| k.thumbprint_sha256_b64().len()), m.data().try_public_key_jwk().is_ok(), m.data().custom().is_some()));
+  cx.acc("VerificationMethod.to_json", i, || m.to_json().map(|j| VerificationMethod::from_json(&j).is_ok()).is_ok());
+  cx.acc("VerificationMethod.fmt_clone_eq", i, || (m.to_string().len(), format!("{:?}", m).len(), m.clone() == *m));
+  cx.acc("MethodDigest.new", i, || MethodDigest::new(m).map(|d| (MethodDigest::unpack(d.pack()).is_ok(), format!("{:?}", d).len())).ok());
+  cx.acc("VerificationMethod.map", i, || {
+    let a = m.clone().map(|d| d);
+    let b: Result<VerificationMethod, ()> = m.clone().try_map(Ok);
+    let r = m.clone().into_method_ref();
+    (a.to_string().len(), b.is_ok(), r.id().to_string().len())
+  });
+  cx.acc("VerificationMethod.set_id", i, || {
+    let mut c = m.clone();
+    let r1 = c.set_id(DIDUrl::parse("did:example:123").expect("harness url")).is_ok();
+    let r2 = c.set_id(DIDUrl::parse("did:example:123#x").expect("harness url")).is_ok();
+    (r1, r2, c.to_string().len())
+  });
+}
+
+pub fn sweep_service(cx: &mut Cx, origin: &str, s: &Service) {
+  let i = In::C(origin, "Service");
+  cx.acc("Service.getters", i, || (s.id().to_string().len(), s.type_().len(), format!("{:?}", s.service_endpoint()).len(), s.service_endpoint().to_string().len(), s.properties().len()));
+  cx.acc("Service.to_json", i, || s.to_json().map(|j| Service::from_json(&j).is_ok()).is_ok());
+  cx.acc("Service.fmt_clone_eq", i, || (s.to_string().len(), format!("{:?}", s).len(), s.clone() == *s));
+  cx.acc("Service.map", i, || {
+    let a = s.clone().map(|d| d);
+    let b: Result<Service, ()> = s.clone().try_map(Ok);
+    let mut c = s.clone();
+    let r = c.set_id(DIDUrl::parse("did:example:123").expect("harness url")).is_ok();
+    (a.to_string().len(), b.is_ok(), r)
+  });
+  if let Some(Ok(b)) = cx.acc("RevocationBitmap.try_from_Service", i, || RevocationBitmap::try_from(s)) {
+    crate::fam_status::sweep_bitmap(cx, origin, &b);
+  }
+  cx.acc("LinkedDomainService.check_structure", i, || LinkedDomainService::check_structure(s).is_ok());
+  if let Some(Ok(l)) = cx.acc("LinkedDomainService.try_from_Service", i, || LinkedDomainService::try_from(s.clone())) {
+    cx.acc("LinkedDomainService.sweep", i, || (l.domains().len(), l.id().to_string().len(), Service::from(l.clone()).to_string().len()));
+  }
+  cx.acc("LinkedVerifiablePresentationService.check_structure", i, || LinkedVerifiablePresentationService::check_structure(s).is_ok());
+  if let Some(Ok(l)) = cx.acc("LinkedVerifiablePresentationService.try_from_Service", i, || LinkedVerifiablePresentationService::try_from(s.clone())) {
+    cx.acc("LinkedVerifiablePresentationService.sweep", i, || (l.verifiable_presentation_urls().len(), l.id().to_string().len(), l.to_json().is_ok(), Service::from(l.clone()).to_string().len()));
+  }
+}
+
+pub fn sweep_doc(cx: &mut Cx, w: &World, rng: &mut Rng, origin: &str, d: &CoreDocument, deep: bool) {
+  let i = In::C(origin, "CoreDocument");
+  cx.acc("CoreDocument.getters", i, || {
+    (
+      d.id().as_str().len(),
+      d.controller().map(|c| c.len()),
+      d.also_known_as().len(),
+      d.verification_method().len(),
+      d.authentication().len() + d.assertion_method().len() + d.key_agreement().len() + d.capability_delegation().len() + d.capability_invocation().len(),
+      d.service().len(),
+      d.properties().len(),
+      d.verification_relationships().count(),
+    )
+  });
+  for sc in SCOPES {
+    cx.acc("CoreDocument.methods", i, || d.methods(*sc).len());
+  }
+  cx.acc("CoreDocument.to_json", i, || d.to_json().map(|j| CoreDocument::from_json(&j).is_ok()).is_ok());
+  cx.acc("CoreDocument.fmt_clone_eq", i, || (d.to_string().len(), format!("{:?}", d).len(), d.clone() == *d, d.to_json_pretty().is_ok()));
+  // queries: dictionary + ids present in the document
+  let mut qs: Vec<String> = QUERIES.iter().map(|s| s.to_string()).collect();
+  for m in d.verification_method().iter().take(3) {
+    qs.push(m.id().to_string());
+    if let Some(f) = m.id().fragment() {
+      qs.push(format!("#{}", f));
+    }
+  }
+  for s in d.service().iter().take(3) {
+    qs.push(s.id().to_string());
+  }
+  for r in d.verification_relationships().take(3) {
+    qs.push(r.id().to_string());
+  }
+  let nq = if deep { qs.len() } else { 6.min(qs.len()) };
+  for q in qs.iter().rev().take(nq) {
+    let iq = In::C(origin, q);
+    for sc in SCOPES.iter().take(if deep { 7 } else { 2 }) {
+      cx.acc("CoreDocument.resolve_method", iq, || d.resolve_method(q.as_str(), *sc).map(|m| m.id().to_string().len()));
+    }
+    cx.acc("CoreDocument.resolve_service", iq, || d.resolve_service(q.as_str()).map(|s| s.id().to_string().len()));
+    cx.acc("CoreDocument.resolve_revocation_bitmap", iq, || d.resolve_revocation_bitmap(DIDUrlQuery::from(q.as_str())).map(|b| b.len()).ok());
+  }
+  for r in d.verification_relationships().take(4) {
+    cx.acc("CoreDocument.resolve_method_ref", i, || d.resolve_method_ref(r).map(|m| m.id().to_string().len()));
+    cx.acc("MethodRef.sweep", i, || (r.id().to_string().len(), r.controller().is_some(), r.is_embedded(), r.is_referred(), r.clone().try_into_embedded().is_ok(), r.clone().try_into_referenced().is_ok(), r.to_json().is_ok(), format!("{:?}", r).len()));
+  }
+  let methods: Vec<VerificationMethod> = d.verification_method().iter().take(if deep { 6 } else { 2 }).cloned().collect();
+  for m in &methods {
+    sweep_method(cx, origin, m);
+  }
+  let services: Vec<Service> = d.service().iter().take(if deep { 6 } else { 2 }).cloned().collect();
+  for s in &services {
+    sweep_service(cx, origin, s);
+  }
+  // mutations on a clone
+  cx.acc("CoreDocument.mutations", i, || {
+    let mut c = d.clone();
+    let mut n = 0usize;
+    for m in &methods {
+      n += c.insert_method(m.clone(), MethodScope::VerificationMethod).is_ok() as usize;
+      n += c.insert_method(m.clone(), MethodScope::authentication()).is_ok() as usize;
+      for r in RELS {
+        n += c.attach_method_relationship(m.id(), *r).is_ok() as usize;
+      }
+      for r in RELS.iter().take(2) {
+        n += c.detach_method_relationship(m.id(), *r).is_ok() as usize;
+      }
+      n += c.remove_method_and_scope(m.id()).is_some() as usize;
+      n += c.remove_method(m.id()).is_some() as usize;
+      n += c.insert_method(m.clone(), MethodScope::key_agreement()).is_ok() as usize;
+      n += c.resolve_method_mut(m.id(), None).is_some() as usize;
+    }
+    for s in &services {
+      n += c.insert_service(s.clone()).is_ok() as usize;
+      n += c.remove_service(s.id()).is_some() as usize;
+      n += c.insert_service(s.clone()).is_ok() as usize;
+    }
+    (n, c.to_json().map(|j| CoreDocument::from_json(&j).is_ok()).is_ok(), c.to_string().len())
+  });
+  cx.acc("CoreDocument.map", i, || {
+    let id = CoreDID::parse("did:example:mapped").expect("harness DID");
+    let a = d.clone().map_unchecked(|_| id.clone(), |c| c, |m| m, |s| s);
+    let b: Result<CoreDocument, ()> = d.clone().try_map(|x| Ok(x), |x| Ok(x), |x| Ok(x), |_| Ok(id.clone()), |_| ());
+    (a.to_string().len(), b.is_ok())
+  });
+  for s in services.iter().take(2) {
+    let q = s.id().to_string();
+    cx.acc("CoreDocument.revoke_credentials", In::C(origin, &q), || {
+      let mut c = d.clone();
+      let a = c.revoke_credentials(s.id(), &[0, 1, 5, u32::MAX, 65536]).is_ok();
+      let b = c.unrevoke_credentials(s.id(), &[1, 7, u32::MAX]).is_ok();
+      (a, b, c.resolve_revocation_bitmap(DIDUrlQuery::from(q.as_str())).map(|b| b.len()).ok())
+    });
+  }
+  // verify_jws against the document (attacker-chosen keys inside the document)
+  if deep || rng.chance(1, 4) {
+    let kids: Vec<String> = qs.iter().take(24).cloned().collect();
+    for kid in kids.iter().rev().take(if deep { 10 } else { 3 }) {
+      let (alg, key) = *rng.pick(&[("EdDSA", &w.ed), ("ES256", &w.p256), ("ES256K", &w.k256)]);
+      let h = format!(r#"{{"alg":"{}","kid":{}}}"#, alg, serde_json::to_string(kid).unwrap_or_default());
+      let tok = sign_compact(key, &h, b"{}", SigMod::Good);
+      let it = In::C(origin, &tok);
+      let opts = JwsVerificationOptions::default();
+      cx.acc("CoreDocument.verify_jws", it, || d.verify_jws(&tok, None, &EcDSAJwsVerifier::default(), &opts).is_ok());
+      cx.acc("CoreDocument.verify_jws", it, || d.verify_jws(&tok, None, &EdDSAJwsVerifier::default(), &opts).is_ok());
+    }
+  }
+}
+
+pub fn sweep_iota_doc(cx: &mut Cx, w: &World, rng: &mut Rng, origin: &str, d: &IotaDocument, deep: bool) {
+  let i = In::C(origin, "IotaDocument");
+  cx.acc("IotaDocument.getters", i, || {
+    (d.id().as_str().len(), d.id().network_str().len(), d.id().tag_str().len(), d.controller().map(|c| c.tag_str().len()).sum::<usize>(), d.also_known_as().len(), d.properties().len(), d.service().len(), d.methods(None).len(), format!("{:?}", d.metadata).len())
+  });
+  cx.acc("IotaDocument.to_json", i, || d.to_json().map(|j| IotaDocument::from_json(&j).is_ok()).is_ok());
+  cx.acc("IotaDocument.fmt_clone_eq", i, || (d.to_string().len(), format!("{:?}", d).len(), d.clone() == *d));
+  if let Some(Ok(packed)) = cx.acc("IotaDocument.pack", i, || d.clone().pack()) {
+    if let Some(Ok(smd)) = cx.acc("StateMetadataDocument.unpack", i, || StateMetadataDocument::unpack(&packed)) {
+      let did = d.id().clone();
+      cx.acc("StateMetadataDocument.into_iota_document", i, || smd.into_iota_document(&did).map(|x| x.to_string().len()).ok());
+    }
+  }
+  cx.acc("StateMetadataDocument.from_IotaDocument", i, || StateMetadataDocument::from(d.clone()).pack(StateMetadataEncoding::Json).map(|v| v.len()).ok());
+  cx.acc("IotaDocument.set_controller", i, || {
+    let mut c = d.clone();
+    let ids: Vec<IotaDID> = d.controller().cloned().collect();
+    c.set_controller(ids);
+    c.set_controller(Vec::new());
+    c.to_string().len()
+  });
+  let core = d.core_document().clone();
+  sweep_doc(cx, w, rng, origin, &core, deep);
+}
+
+fn sweep_smd(cx: &mut Cx, origin: In, smd: StateMetadataDocument) {
+  cx.acc("StateMetadataDocument.fmt", origin, || (format!("{:?}", smd).len(), smd.to_json().is_ok(), smd.clone() == smd));
+  for did in [ISSUER_DID, "did:iota:smr:0x0000000000000000000000000000000000000000000000000000000000000000"] {
+    let id = IotaDID::parse(did).expect("harness IotaDID");
+    let c = smd.clone();
+    cx.acc("StateMetadataDocument.into_iota_document", origin, || c.into_iota_document(&id).map(|x| (x.to_string().len(), x.id().tag_str().len())).ok());
+  }
+  cx.acc("StateMetadataDocument.pack", origin, || smd.pack(StateMetadataEncoding::Json).map(|v| StateMetadataDocument::unpack(&v).is_ok()).ok());
+}
+
+fn feed_json(cx: &mut Cx, w: &World, rng: &mut Rng, j: &str, deep: bool) {
+  let i = In::S(j);
+  if let Some(d) = cx.ent("CoreDocument::from_json", i, || CoreDocument::from_json(j)) {
+    sweep_doc(cx, w, rng, j, &d, deep);
+    cx.acc("IotaDocument.from_CoreDocument", i, || {
+      let x = IotaDocument::from(d.clone());
+      (x.id().network_str().len(), x.id().tag_str().len(), x.to_string().len(), x.controller().count())
+    });
+    cx.acc("IotaDocument.try_from_parts", i, || IotaDocument::try_from((d.clone(), IotaDocumentMetadata::default())).is_ok());
+  }
+  if let Some(d) = cx.ent("IotaDocument::from_json", i, || IotaDocument::from_json(j)) {
+    sweep_iota_doc(cx, w, rng, j, &d, deep);
+  }
+  if let Some(s) = cx.ent("StateMetadataDocument::from_json", i, || StateMetadataDocument::from_json(j)) {
+    sweep_smd(cx, i, s);
+  }
+  if let Some(s) = cx.ent("Service::from_json", i, || Service::from_json(j)) {
+    sweep_service(cx, j, &s);
+  }
+  if let Some(m) = cx.ent("VerificationMethod::from_json", i, || VerificationMethod::from_json(j)) {
+    sweep_method(cx, j, &m);
+  }
+  if let Some(r) = cx.ent("MethodRef::from_json", i, || MethodRef::from_json(j)) {
+    cx.acc("MethodRef.sweep", i, || (r.id().to_string().len(), r.is_embedded(), r.to_json().is_ok()));
+  }
+  cx.ent("MethodData::from_json", i, || MethodData::from_json(j).map(|d| (d.try_decode().is_ok(), d.to_json().is_ok())));
+  cx.ent("ServiceEndpoint::from_json", i, || ServiceEndpoint::from_json(j).map(|e| (e.to_string().len(), e.to_json().is_ok())));
+  cx.ent("IotaDocumentMetadata::from_json", i, || IotaDocumentMetadata::from_json(j).map(|m| (m.to_json().is_ok(), format!("{:?}", m).len(), m.to_string().len())));
+  cx.ent("LinkedVerifiablePresentationService::from_json", i, || LinkedVerifiablePresentationService::from_json(j).map(|l| l.verifiable_presentation_urls().len()));
+  cx.ent("JwsVerificationOptions::from_json", i, || JwsVerificationOptions::from_json(j).map(|o| o.to_json().is_ok()));
+}
+
+fn packed(version: u8, encoding: u8, len: Option<u16>, body: &[u8]) -> Vec<u8> {
+  let mut v = b"DID".to_vec();
+  v.push(version);
+  v.push(encoding);
+  v.extend_from_slice(&len.unwrap_or(body.len().min(65535) as u16).to_le_bytes());
+  v.extend_from_slice(body);
+  v
+}
+
+fn feed_packed(cx: &mut Cx, data: &[u8]) {
+  if let Some(s) = cx.ent("StateMetadataDocument::unpack", In::B(data), || StateMetadataDocument::unpack(data)) {
+    sweep_smd(cx, In::B(data), s);
+  }
+}
+
+pub fn run(cx: &mut Cx, w: &World, rng: &mut Rng, budget: u64) {
+  cx.set("docs", "directed");
+  let did = ISSUER_DID;
+  let m_ed = crate::world::method_json(did, "k", &w.ed.public_jwk_json(None));
+  let mut directed: Vec<String> = vec![
+    w.issuer_doc_json.clone(),
+    w.holder_doc_json.clone(),
+    format!(r#"{{"doc":{},"meta":{{}}}}"#, w.issuer_doc_json),
+    format!(r#"{{"doc":{},"meta":{{"created":"9999-12-31T23:59:59-01:00","updated":"0000-01-01T00:00:00+01:00","deactivated":true,"x":1}}}}"#, w.issuer_doc_json),
+    format!(r#"{{"id":"{did}"}}"#),
+    format!(r#"{{"id":"{did}","verificationMethod":[{m},{m}]}}"#, m = m_ed),
+    format!(r#"{{"id":"{did}","verificationMethod":[{m}],"authentication":[{m}]}}"#, m = m_ed),
+    format!(r#"{{"id":"{did}","authentication":["{did}#k"]}}"#),
+    format!(r#"{{"id":"{did}","authentication":["{did}#k","{did}#k"]}}"#),
+    format!(r#"{{"id":"{did}","authentication":["{did}"]}}"#),
+    format!(r#"{{"id":"{did}","controller":[]}}"#),
+    format!(r#"{{"id":"{did}","controller":["{did}","{did}"]}}"#),
+    format!(r#"{{"id":"{did}","controller":"did:example:123/p?q#f"}}"#),
+    format!(r#"{{"id":"{did}","alsoKnownAs":["a:","a:"]}}"#),
+    format!(r#"{{"id":"{did}","service":[{{"id":"{did}#s","type":[],"serviceEndpoint":"a:"}}]}}"#),
+    format!(r#"{{"id":"{did}","service":[{{"id":"{did}#s","type":["a","a"],"serviceEndpoint":{{}}}}]}}"#),
+    format!(r#"{{"id":"{did}","service":[{{"id":"{did}#s","type":"a","serviceEndpoint":{{"origins":[]}}}}]}}"#),
+    format!(r#"{{"id":"{did}","service":[{{"id":"{did}#k","type":"a","serviceEndpoint":"a:"}}],"verificationMethod":[{m}]}}"#, m = m_ed),
+    format!(r#"{{"id":"{did}","service":[{{"id":"{did}","type":"a","serviceEndpoint":"a:"}}]}}"#),
+    format!(r#"{{"id":"{did}#frag"}}"#),
+    format!(r#"{{"id":" {did}"}}"#),
+    format!(r#"{{"id":"{did}\n","verificationMethod":[{m}]}}"#, m = m_ed),
+    format!(r#"{{"id":"did:example:1%41","verificationMethod":[{{"id":"did:example:1%41#k","controller":"did:example:1%41","type":"JsonWebKey","publicKeyJwk":{}}}]}}"#, w.ed.public_jwk_json(None)),
+    format!(r#"{{"id":"{did}#s","type":"LinkedDomains","serviceEndpoint":["https://a.example"]}}"#),
+    format!(r#"{{"id":"{did}#s","type":"LinkedDomains","serviceEndpoint":{{"origins":[]}}}}"#),
+    format!(r#"{{"id":"{did}#s","type":"LinkedDomains","serviceEndpoint":{{"x":["https://a.example"]}}}}"#),
+    format!(r#"{{"id":"{did}#s","type":"LinkedDomains","serviceEndpoint":{{"origins":["http://a.example/p?q#f"]}}}}"#),
+    format!(r#"{{"id":"{did}#s","type":["LinkedDomains","x"],"serviceEndpoint":"https://a.example"}}"#),
+    format!(r#"{{"id":"{did}#s","type":"LinkedVerifiablePresentation","serviceEndpoint":{{"a":["https://a.example"]}}}}"#),
+    format!(r#"{{"id":"{did}#s","type":"LinkedVerifiablePresentation","serviceEndpoint":[]}}"#),
+    format!(r#"{{"id":"{did}#s","type":"RevocationBitmap2022","serviceEndpoint":"{}"}}"#, w.bitmap_endpoint),
+    format!(r#"{{"id":"{did}#k","controller":"{did}","type":"Ed25519VerificationKey2018","publicKeyMultibase":""}}"#),
+    format!(r#"{{"id":"{did}#k","controller":"{did}","type":"Ed25519VerificationKey2018","publicKeyMultibase":"z"}}"#),
+    format!(r#"{{"id":"{did}#k","controller":"{did}","type":"Ed25519VerificationKey2018","publicKeyMultibase":"é"}}"#),
+    format!(r#"{{"id":"{did}#k","controller":"{did}","type":"Ed25519VerificationKey2018","publicKeyBase58":"0OIl"}}"#),
+    format!(r#"{{"id":"{did}#k","controller":"{did}","type":"X","publicKeyMultibase":"z6Mk","publicKeyJwk":{}}}"#, w.ed.public_jwk_json(None)),
+    format!(r#"{{"id":"{did}#k","controller":"{did}","type":"JsonWebKey","publicKeyJwk":{}}}"#, w.ed.private_jwk_json(None)),
+    format!(r#"{{"id":"{did}#k","controller":"{did}","type":"X","blockchainAccountId":"eip155:1:0x89a932207c485f85226d86f7cd486a89a24fcc12"}}"#),
+    format!(r#"{{"id":"{did}","controller":"{did}","type":"JsonWebKey","publicKeyJwk":{}}}"#, w.ed.public_jwk_json(None)),
+  ];
+  for t in DID_TOKENS.iter().take(60) {
+    let ts = serde_json::to_string(t).unwrap_or_default();
+    directed.push(format!(r#"{{"id":{ts}}}"#));
+    directed.push(format!(r#"{{"id":"{did}","controller":{ts},"verificationMethod":[{{"id":{ts},"controller":{ts},"type":"JsonWebKey","publicKeyJwk":{}}}]}}"#, w.ed.public_jwk_json(None)));
+  }
+  for (_, t, _) in w.seeds.json.iter().filter(|(k, _, _)| matches!(k, Kind::CoreDoc | Kind::IotaDoc | Kind::Method | Kind::Service)) {
+    directed.push(t.clone());
+  }
+  for l in [100usize, 127] {
+    directed.push(format!(r#"{{"id":"{did}","x":{}}}"#, gen::deep_json(l - 1, 0)));
+  }
+  for (k, j) in directed.iter().enumerate() {
+    if cx.args.mine(k as u64) {
+      feed_json(cx, w, rng, j, true);
+    }
+  }
+  // packed state metadata: header grid x bodies
+  let smd_body = format!(r#"{{"doc":{},"meta":{{"created":"2022-01-01T00:00:00Z","updated":"2022-01-02T00:00:00Z"}}}}"#, w.issuer_doc_json.replace(ISSUER_DID, "did:0:0"));
+  let small = r#"{"doc":{"id":"did:0:0"},"meta":{}}"#;
+  let mut k = 0u64;
+  for body in [smd_body.as_bytes(), small.as_bytes(), b"{}", b"", b"\xff"] {
+    for version in [0u8, 1, 2, 255] {
+      for encoding in [0u8, 1, 255] {
+        for len in [None, Some(0u16), Some(1), Some(body.len().saturating_sub(1).min(65535) as u16), Some((body.len() + 1).min(65535) as u16), Some(u16::MAX)] {
+          k += 1;
+          if cx.args.mine(k) {
+            feed_packed(cx, &packed(version, encoding, len, body));
+          }
+        }
+      }
+    }
+  }
+  let good = packed(1, 0, None, small.as_bytes());
+  for cut in 0..good.len().min(12) {
+    k += 1;
+    if cx.args.mine(k) {
+      feed_packed(cx, &good[..cut]);
+    }
+  }
+  for pre in [&b"DIX"[..], b"did", b"", b"DI", b"DID\x01", b"DID\x01\x00", b"DID\x01\x00\xff"] {
+    k += 1;
+    if cx.args.mine(k) {
+      feed_packed(cx, pre);
+      let mut v = pre.to_vec();
+      v.extend_from_slice(&good);
+      feed_packed(cx, &v);
+    }
+  }
+
+  // ---- mutation
+  cx.gen("mutation");
+  let mut idxs = w.seeds.of(Kind::CoreDoc);
+  idxs.extend(w.seeds.of(Kind::IotaDoc));
+  idxs.extend(w.seeds.of(Kind::Method));
+  idxs.extend(w.seeds.of(Kind::Service));
+  for n in 0..budget {
+    let (seed_text, seed_val): (String, Option<serde_json::Value>) = if rng.chance(1, 3) {
+      let t = &directed[rng.usize(40.min(directed.len()))];
+      // the big harness documents are expensive to sweep; use them rarely
+      if t.len() > 8000 && !rng.chance(1, 10) {
+        (small.to_string(), serde_json::from_str(small).ok())
+      } else {
+        (t.clone(), serde_json::from_str(t).ok())
+      }
+    } else {
+      let (_, t, v) = w.seeds.pick(rng, &idxs);
+      (t.clone(), Some(v.clone()))
+    };
+    let other = gen::any_token(rng);
+    let j = gen::mutate_json_text(rng, &seed_text, seed_val.as_ref(), other);
+    if n % 4 == 3 {
+      // as packed state metadata, with a possibly lying header
+      let body = if rng.bool() { j.clone().into_bytes() } else { gen::mutate_bytes(rng, small.as_bytes(), j.as_bytes()) };
+      let len = match rng.below(4) {
+        0 => Some(rng.below(65536) as u16),
+        _ => None,
+      };
+      let mut p = packed(if rng.chance(9, 10) { 1 } else { rng.below(256) as u8 }, if rng.chance(9, 10) { 0 } else { rng.below(256) as u8 }, len, &body);
+      if rng.chance(1, 6) {
+        p = gen::mutate_bytes(rng, &p, b"DID");
+      }
+      feed_packed(cx, &p);
+    } else {
+      feed_json(cx, w, rng, &j, false);
+    }
+  }
+}
